@@ -4770,3 +4770,194 @@ func init() {
 		}
 	})
 }
+
+// ======== round 11 ========
+
+// swappedArgumentsRule (syntax tree + types): two arguments that are plain identifiers carry each other's parameter name.
+func swappedArgumentsRule(c *Ctx, r *Result, rule string, floor int) {
+	n, bad := 0, 0
+	for _, p := range c.Pkgs {
+		if p.TypesInfo == nil || !libPackage(p.PkgPath) {
+			continue
+		}
+		for _, file := range p.Syntax {
+			if strings.HasSuffix(p.Fset.Position(file.Pos()).Filename, "_test.go") {
+				continue
+			}
+			ast.Inspect(file, func(nd ast.Node) bool {
+				call, ok := nd.(*ast.CallExpr)
+				if !ok {
+					return true
+				}
+				var fobj *types.Func
+				switch f := call.Fun.(type) {
+				case *ast.Ident:
+					fobj, _ = p.TypesInfo.Uses[f].(*types.Func)
+				case *ast.SelectorExpr:
+					fobj, _ = p.TypesInfo.Uses[f.Sel].(*types.Func)
+				}
+				if fobj == nil || fobj.Pkg() == nil || !inModule(fobj.Pkg().Path()) {
+					return true
+				}
+				sig, _ := fobj.Type().(*types.Signature)
+				if sig == nil || sig.Variadic() || sig.Params().Len() != len(call.Args) {
+					return true
+				}
+				names := make([]string, len(call.Args))
+				for i, a := range call.Args {
+					if id, isId := a.(*ast.Ident); isId {
+						names[i] = id.Name
+					}
+				}
+				counted := false
+				for i := 0; i < len(names); i++ {
+					for j := i + 1; j < len(names); j++ {
+						pi, pj := sig.Params().At(i), sig.Params().At(j)
+						if names[i] == "" || names[j] == "" || pi.Name() == "" || pj.Name() == "" || pi.Name() == pj.Name() {
+							continue
+						}
+						if !types.Identical(pi.Type(), pj.Type()) {
+							continue
+						}
+						if !counted {
+							n++
+							counted = true
+						}
+						if names[i] == pj.Name() && names[j] == pi.Name() {
+							bad++
+							r.Viol(rule, fmt.Sprintf("%s#%s-and-%s-exchanged-%d", fobj.Name(), pi.Name(), pj.Name(), bad), c.Pos(call.Pos()), fmt.Sprintf("the argument named %s is handed to the parameter %s and the argument named %s to the parameter %s of %s (same type: the compiler cannot tell)", names[i], pi.Name(), names[j], pj.Name(), fobj.Name()))
+						}
+					}
+				}
+				return true
+			})
+		}
+	}
+	if bad == 0 {
+		r.Hold(rule, "module#no-call-hands-two-arguments-to-each-other's-parameter", "", fmt.Sprintf("%d calls with two identifier arguments of one type examined", n))
+	}
+	if n < floor {
+		r.Shortfall(c, rule, fmt.Sprintf("%s: only %d calls with two identifier arguments of one type (expected >= %d)", rule, n, floor))
+	}
+}
+
+func init() {
+	txt := "arguments go to the parameters they are named after: no call of a module function hands an identifier named like parameter j to parameter i and an identifier named like parameter i to parameter j when both have the same type (extractFromChunk(.., dims, chunkDims) for (.., chunkDims, dims): every chunk but the first of a partial read comes back as zeros; EncodeLayoutMessage(.., dataAddress, dataSize) describes a compound dataset by a region that overlaps the superblock)"
+	shareRule([]string{"C09", "C05", "C01", "C06", "C11", "C13"}, txt, "C09", func(c *Ctx, r *Result, id string) { swappedArgumentsRule(c, r, id, 20) })
+}
+
+// notFoundInitRule: a search result that is compared with -1 (or < 0) starts at -1.
+func notFoundInitRule(c *Ctx, r *Result, rule string, floor int) {
+	n := 0
+	for _, fn := range c.LibFuncs() {
+		if fn.Blocks == nil {
+			continue
+		}
+		k := 0
+		instrs(fn, func(in ssa.Instruction) {
+			phi, ok := in.(*ssa.Phi)
+			if !ok || !isIntType(phi.Type()) {
+				return
+			}
+			var init int64
+			hasConst, hasOther := false, false
+			for _, e := range phi.Edges {
+				if kk, isK := constInt(e); isK {
+					if hasConst && kk != init {
+						return
+					}
+					init, hasConst = kk, true
+				} else {
+					hasOther = true
+				}
+			}
+			if !hasConst || !hasOther || init < -1 || init > 0 {
+				return
+			}
+			// compared with "not found"?
+			tested := false
+			for _, ref := range *phi.Referrers() {
+				cmp, isC := ref.(*ssa.BinOp)
+				if !isC || cmp.X != ssa.Value(phi) {
+					continue
+				}
+				kk, isK := constInt(cmp.Y)
+				if !isK {
+					continue
+				}
+				if (kk == -1 && (cmp.Op == token.EQL || cmp.Op == token.NEQ)) || (kk == 0 && (cmp.Op == token.LSS || cmp.Op == token.GEQ)) {
+					tested = true
+				}
+			}
+			if !tested {
+				return
+			}
+			n++
+			k++
+			r.Check(init == -1, rule, fmt.Sprintf("%s#not-found-value-%d", c.Name(fn), k), c.InstrPos(phi), fmt.Sprintf("the variable is compared with 'not found' (-1 / < 0) and starts at %d", init))
+		})
+	}
+	if n < floor {
+		r.Shortfall(c, rule, fmt.Sprintf("%s: only %d search results tested against -1 found (expected >= %d)", rule, n, floor))
+	}
+}
+
+// headerMessageOverheadRule: the per-message overhead the header-full test adds is the one the header writer writes.
+func headerMessageOverheadRule(c *Ctx, r *Result, rule string) {
+	cons := "core.AddMessageToObjectHeader~core.ObjectHeaderWriter.writeToV2#per-message-overhead"
+	perMsg := func(fn *ssa.Function) (int64, ssa.Instruction) {
+		var out int64 = -1
+		var at ssa.Instruction
+		if fn == nil {
+			return out, nil
+		}
+		fb := c.FB(fn)
+		instrs(fn, func(in ssa.Instruction) {
+			bo, ok := in.(*ssa.BinOp)
+			if !ok || bo.Op != token.ADD {
+				return
+			}
+			// an accumulator plus (K + len(msg.Data)): look at the non-phi operand
+			for _, opnd := range []ssa.Value{bo.X, bo.Y} {
+				l := fb.lin(opnd)
+				if len(l.T) != 1 || l.C <= 0 {
+					continue
+				}
+				for sym, co := range l.T {
+					if lk, isLen := sym.(lenKey); isLen && co == 1 && valueReadsField(lk.v, "core.HeaderMessage.Data", 0) || isLen && co == 1 && valueReadsField(lk.v, "core.MessageWriter.Data", 0) {
+						out, at = l.C, in
+					}
+				}
+			}
+		})
+		return out, at
+	}
+	a, at := perMsg(c.FnOpt("core.AddMessageToObjectHeader"))
+	w, _ := perMsg(c.FnOpt("core.ObjectHeaderWriter.writeToV2"))
+	if a < 0 || w < 0 {
+		r.Undec(rule, cons, "", fmt.Sprintf("per-message constants not recognised (test: %d, writer: %d)", a, w))
+		return
+	}
+	r.Check(a == w, rule, cons, c.InstrPos(at), fmt.Sprintf("the header-full test counts %d bytes per message besides its data, the version 2 header writer writes %d", a, w))
+}
+
+func init() {
+	txt := "a search that finds nothing says so: an integer variable that merges a constant start value with a found position and is compared with -1 (== -1, != -1, < 0, >= 0) starts at -1 (msgIndex := 0 makes the delete of an absent attribute remove header message 0: the dataset's own datatype or dataspace)"
+	shareRule([]string{"C02", "C16", "C03"}, txt, "C02", func(c *Ctx, r *Result, id string) { notFoundInitRule(c, r, id, 3) })
+	txt = "the header-full test counts what the header writer writes: the constant AddMessageToObjectHeader adds per existing message to len(Data) is the one writeToV2 adds (type, size, flags: 4 bytes; with 3 a value whose message just fits by the test is refused by the writer with another error and the attribute never migrates to dense storage)"
+	shareRule([]string{"C02", "C16"}, txt, "C02", func(c *Ctx, r *Result, id string) { headerMessageOverheadRule(c, r, id) })
+	// shares suggested by round 11
+	shareRule([]string{"C02"}, registry["C15"].Meta.Rules["C15.18"], "C15.18", func(c *Ctx, r *Result, id string) { aliasRule(c, r, "C15", runAppended("C15"), "C15.18", id) })
+	shareRule([]string{"C13"}, registry["C09"].Meta.Rules["C09.13"], "C09.13", func(c *Ctx, r *Result, id string) { chunkKeyRule(c, r, id) })
+	shareRule([]string{"C05"}, registry["C02"].Meta.Rules["C02.15"], "C02.15", func(c *Ctx, r *Result, id string) { elementStrideRule(c, r, id, 8) })
+}
+
+// runAppended: every rule function registered for a property besides its main one (for aliasing a rule that is a closure).
+func runAppended(prop string) func(*Ctx, *Result) {
+	fns := append([]ruleFn{}, registry[prop].Rules...)
+	return func(c *Ctx, r *Result) {
+		for _, f := range fns {
+			f(c, r)
+		}
+	}
+}
